@@ -513,6 +513,54 @@ def _kind(fn, k):
     return h
 
 
+def sc_map_blocks_broadcast(n, m, c, c2, first, e, e2):
+    """map_blocks(f, a, b) over a (1, m) and an (n, m) array, the size-1 (broadcast) array first or second: NumPy broadcasting gives
+    (n, m) and out[e, e2] = f(a[0, e2], b[e, e2])"""
+    import cubed
+
+    B._start()
+    sx.assume(c <= n)
+    sx.assume(c2 <= m)
+    sx.assume(e < n)
+    sx.assume(e2 < m)
+    a = G.stub_array("a", (1, m), (1, c2))
+    b = G.stub_array("b", (n, m), (c, c2))
+    nxp = B.anp_ns()
+    fv = sx.conc(first)
+    args = (a, b) if fv == 0 else (b, a)
+    out = cubed.map_blocks(lambda u, v: nxp.subtract(u, v), *args, dtype="float64")
+    B._declared_ok(out, (n, m))
+    t, _ = B._elem(out, (e, e2))
+    ta, tb = ("elem", "a", (0, e2)), ("elem", "b", (e, e2))
+    B._expect(t, ("fn", "subtract", (ta, tb) if fv == 0 else (tb, ta)))
+
+
+def sc_reduction_premap(n, m, c, s, j, j2, e):
+    """cubed.core.reduction with a user `func` that is a pre-processing MAP (square) and a reducing combine_func (sum-of-squares over axis
+    0): every task must write a block of its chunk's extent whatever the number of blocks per group; out[e] collects column e once"""
+    from cubed.core.ops import reduction
+
+    B._start()
+    sx.assume(c <= n)
+    sx.assume(j < n)
+    sx.assume(j2 < m)
+    sx.assume(e < m)
+    x = G.stub_array("x", (n, m), (c, m))
+    nxp = B.anp_ns()
+
+    def premap(a, axis=None, keepdims=None, **kw):
+        return nxp.multiply(a, a)
+
+    def comb(a, axis=None, keepdims=None, **kw):
+        return nxp.sum(a, axis=axis, keepdims=keepdims)
+
+    out = reduction(x, premap, combine_func=comb, axis=0, dtype="float64", split_every=s)
+    B._declared_ok(out, (m,))
+    t, _ = B._elem(out, (e,))
+    mlt = anp.term_mult(t, ("x", (j, j2)))
+    sx.require(mlt == sx.ite(j2 == e, 2, 0), "wrong-reduction-group", f"x[{j},{j2}] enters out[{e}] {mlt} times (expected twice: x*x)")
+
+
 def _D(N):
     """extent bound of the 2-d scenarios: 3 in the quick tier, 5 in the thorough tier"""
     return 3 if N <= 6 else 5
@@ -539,6 +587,8 @@ SCENARIOS = {
     "diff[n=2/append/prepend]": (sc_diff_n, lambda N: [("n", 1, N), ("c", 1, N), ("k", 0, 2), ("e", 0, N + 1)]),
     "pad[symmetric]": (sc_pad_symmetric, lambda N: [("n", 1, N), ("c", 1, N), ("pl", 0, 2), ("pr", 0, 2), ("e", 0, N + 4)]),
     "tensordot[values]": (sc_tensordot_values, lambda N: [("n", 1, 2), ("k", 1, _D(N) + 1), ("m", 1, 2), ("c", 1, 2), ("ck", 1, _D(N) + 1), ("cm", 1, 2), ("e0", 0, 1), ("e1", 0, 1), ("j", 0, _D(N)), ("r", 0, 1)]),
+    "map_blocks[broadcast,size-1-array]": (sc_map_blocks_broadcast, lambda N: [("n", 1, _D(N) + 1), ("m", 1, _D(N)), ("c", 1, _D(N) + 1), ("c2", 1, _D(N)), ("first", 0, 1), ("e", 0, _D(N)), ("e2", 0, _D(N) - 1)]),
+    "reduction[user-func-is-a-map]": (sc_reduction_premap, lambda N: [("n", 1, N + 3), ("m", 1, 2), ("c", 1, N + 3), ("s", 2, 4), ("j", 0, N + 2), ("j2", 0, 1), ("e", 0, 1)]),
     "creation-leaves": (sc_full_leaf, lambda N: [("n", 1, N), ("c", 1, N), ("k", 0, 3), ("e", 0, N)]),
 }
 # only in the thorough tier (same construction path as min[2d] with another block function)
